@@ -230,6 +230,15 @@ func c05Shapes(ai int, a c05Alias) []c05Shape {
 		out = append(out, c05Shape{fields: base, where: w0, order: []string{a.name + " desc", "KEY asc"}, alias: ai})
 		out = append(out, c05Shape{fields: base, where: ref.Bl(true), order: []string{a.name + " asc", "KEY desc"}, alias: ai})
 	}
+	if a.ordable {
+		// ordered by a later field defined through the alias (its type, and so
+		// the way it is compared, is that of the expanded expression)
+		for _, l := range a.later {
+			f3 := append(append([]c05Field(nil), base...), c05Field{l, "z"})
+			out = append(out, c05Shape{fields: f3, where: ref.Bl(true), order: []string{"z asc", "KEY desc"}, alias: ai})
+			out = append(out, c05Shape{fields: f3, where: w0, order: []string{"z desc", "KEY asc"}, alias: ai})
+		}
+	}
 	// a later field carrying the same name: the name keeps referring to the
 	// first one and the later column still shows its own expression
 	for _, w := range uses {
@@ -448,7 +457,9 @@ func c05Judge(c *c05Case) (fails []core.Failure, nontrivial bool, status, observ
 		// alias mechanism's fault; judged by C03/C06
 		status = "expanded-fails"
 	case !al.Failed() && !ex.Failed():
-		if !c05SameRows(al.Rows, ex.Rows, len(c.Order) > 0 || len(c.Group) > 0) {
+		// an order list that ends with the key is a total order: the sequences must be the same
+		total := len(c.Order) > 0 && len(c.Group) == 0 && strings.HasPrefix(c.Order[len(c.Order)-1], "KEY")
+		if !c05SameRows(al.Rows, ex.Rows, (len(c.Order) > 0 || len(c.Group) > 0) && !total) {
 			fails = append(fails, mk("aliased-vs-expanded", rowDiffSig(al.Rows, ex.Rows), "rows of the expanded query "+qe+": "+ex.Describe(), al.Describe()))
 		}
 	default:
